@@ -459,6 +459,30 @@ def report(ctx, verdicts, reported):
     ctx.violation(kind, rec, no_input=(kind == "correspondence-broken"))
 
 
+def translator_obligations(ctx):
+  """Regenerate the translation of distributed_shampoo.batch from /repo and re-prove it equal to C13.Ref
+  (linked to the model's chunking by c13_source_batch_is_model)."""
+  from tools import targets
+  text, errors = targets.generate_c13(common.REPO)
+  ctx.cov["obligations"] += 2
+  if errors:
+    ctx.proof_failure("translate distributed_shampoo.batch", json.dumps(errors))
+    return
+  ok, out = ctx.gen_obligation("Gen", text)
+  if not ok:
+    ctx.proof_failure("compile gen/C13/Gen.v (translation of batch)", out[-2000:])
+    return
+  ctx.cov["discharged"] += 1
+  ob = ("From Precond Require Import Base.PyLib Base.PyLib2.\nFrom Precond Require C13.Ref.\n"
+        "From PrecondGen Require C13.Gen.\n"
+        "Lemma gen_eq_batch_src : C13.Gen.batch_src = C13.Ref.batch_src.\nProof. reflexivity. Qed.\n")
+  ok, out = ctx.gen_obligation("GenEq_batch_src", ob)
+  if ok:
+    ctx.cov["discharged"] += 1
+  else:
+    ctx.proof_failure("GenEq_batch_src (Gen = Ref)", out[-2000:])
+
+
 def run(ctx):
   ctx.cov["rule"] = (
       "(i) exhaustive: batch() for n in 0..40 x D in 1..8 x item shapes, unbatch() for b1 in 1..8 x "
@@ -479,6 +503,7 @@ def run(ctx):
       "rounding depends on the per-replica batch size and the root amplifies it by its condition number",
       "forced host-platform CPU devices stand for accelerator devices"]
   ctx.proofs(["Properties/C13.v"])
+  translator_obligations(ctx)
   known = common.load_known_findings("C13")
   state = new_state()
   reported = set()
